@@ -24,7 +24,7 @@ Lemma dn_pre i d k a : dn (NPre i d k a) -> dn a.
 Proof. intros (p & n & _ & _ & _ & _ & _ & _ & _ & D). exists (Some i). exact D. Qed.
 Lemma dn_suf i d k a : dn (NSuf i d k a) -> dn a.
 Proof. intros (p & n & _ & _ & _ & _ & _ & _ & _ & D). exists (Some i). exact D. Qed.
-Lemma dn_group i k a : dn (NGroup i k a) -> dn a.
+Lemma dn_group b i k a : dn (NGroup b i k a) -> dn a.
 Proof. intros (p & n & _ & _ & _ & _ & _ & _ & _ & D). exists (Some i). exact D. Qed.
 Lemma dn_bin i d k l r : dn (NBin i d k l r) -> dn l /\ dn r.
 Proof. intros (p & n & _ & _ & _ & _ & _ & Dl & Dr). split; exists (Some i); assumption. Qed.
@@ -102,9 +102,9 @@ Proof.
           [apply (IHe1 G0 P1 _ _ R1 D1 A1)|apply (IHe2 G P2 _ _ R2 D2 A2)]. }
     split; [exact H|apply chain_of_plain; [reflexivity|exact H]].
   - (* group *)
-    cbn [rep] in R. destruct t as [| | | |i k a]; try contradiction. destruct R as (-> & Rx).
-    assert (H : inl_spec (EGroup e) (NGroup i off a)).
-    { apply step_group. apply (IHe F (paren_ok_group _ P) _ _ Rx (dn_group _ _ _ D)). eapply at_off_group; eauto. }
+    cbn [rep] in R. destruct t as [| | | |b i k a]; try contradiction. destruct b; try contradiction. destruct R as (-> & Rx).
+    assert (H : inl_spec (EGroup e) (NGroup BRound i off a)).
+    { apply step_group. apply (IHe F (paren_ok_group _ P) _ _ Rx (dn_group _ _ _ _ D)). eapply at_off_group; eauto. }
     split; [exact H|apply chain_of_plain; [reflexivity|exact H]].
   - (* conditional *)
     destruct (paren_ok_binary (ECond neg e1 e2) _ _ _ eq_refl P) as [P1 P2].
